@@ -127,12 +127,15 @@ def tup(e):
 
 
 # ---------------------------------------------------------------- files
-STEMS = ["magefile", "a", "b", "build", "tasks", "util", "mage_helpers", "x_y", "linux", "main", "gen", "zz", "windows_amd64", "deploy", "c"]
+STEMS = ["magefile", "a", "b", "build", "tasks", "util", "mage_helpers", "x_y", "linux", "main", "gen", "zz", "windows_amd64", "deploy", "c",
+         # names as such: dash, dot, space, plus, equals, at, non-ASCII, upper case (go/build takes them all; only a leading _ or . hides a file)
+         "release+notes", "deploy staging", "more@tasks", "k=v", "a-b", "x.y", "\u00fcber", "\u65e5\u672c", "UPPER", "Mixed_Case", "it's", "semi;colon", "dollar$x"]
 SUFFIXES = ([""] * 10 + ["_linux", "_windows", "_darwin", "_amd64", "_arm64", "_windows_amd64", "_linux_arm64", "_android", "_ios",
                          "_solaris", "_unix", "_test", "_linux_test", "_foo", "_amd64_linux", "_js_wasm", "_plan9_386", "_darwin_arm64",
                          "_linux_amd64", "_test_linux", "_wasm", "_386", "_illumos", "_freebsd_amd64", "_linux_foo", "_"])
 ODD_NAMES = ["a.b_linux.go", "gen.windows.go", "_x.go", ".hid.go", "_magefile_linux.go", "README.md", "notes.txt", "x.go.bak", "run.sh", "y_windows.txt",
-             "linux_amd64.go", "amd64.go", "test.go", "_test.go", "x__linux.go", "GO.GO", "q.go.go"]
+             "linux_amd64.go", "amd64.go", "test.go", "_test.go", "x__linux.go", "GO.GO", "q.go.go",
+             "-dash-first.go", "+plus.go", "_\u00fcber.go", ".\u65e5\u672c.go", "L" + "o" * 180 + "ng_linux.go", "Linux_AMD64.go", "tab\tname.go", " leading space.go"]
 FORMS = ["gobuild"] * 11 + ["plus"] * 3 + ["both"] * 2 + ["none"] * 3 + ["misplaced", "plus_noblank", "license", "blockcomment"]
 
 
@@ -209,11 +212,13 @@ def gen_dir(rng, di):
     if malformed and bi >= 0 and files[bi]["broken"] is None:
         files[bi] = gen_file(rng, names[bi], bi, pkgs, True)
     files.sort(key=lambda f: f["name"].encode())
-    return {"id": di, "files": files, "mixed": mixed}
+    return {"id": di, "files": files, "mixed": mixed, "mode": rng.choice([None] * 5 + [0o777, 0o1777, 0o775, 0o700, 0o755, 0o2777])}
 
 
 def write_dir(path, d, gomod=False):
     os.makedirs(path, exist_ok=True)
+    if d.get("mode") is not None:      # the attributes of the directory are not an input of the selection
+        os.chmod(path, d["mode"])
     for f in d["files"]:
         with open(os.path.join(path, f["name"]), "w") as fh:
             fh.write(f["text"])
@@ -721,6 +726,30 @@ exec go "$@"
         for n, (top, extras) in enumerate(parent_jobs):
             jobs.append({"kind": "parent", "top": top, "sub": D([e2e_file("targets.go", M, "Sub"), e2e_file("plain.go", None, "Plain")]), "extras": extras,
                          "env": envs[n % len(envs)], "plat": host, "flags": ("", ""), "gocmd": n % 3 == 0, "goplan": ""})
+        # FILE NAMES of magefiles (those the go tool accepts on its command line; a space is covered by the in-process part only,
+        # `go build` itself refuses such a name) and ATTRIBUTES of the directories: neither is an input of the selection
+        def named():
+            names = ["release+notes.go", "more@tasks.go", "k=v.go", "a-b.c.go", "\u00fcber.go", "\u65e5\u672c_%s.go" % host[0], "UPPER.go", "Mixed_%s.go" % host[1].upper(),
+                     "l" + "o" * 100 + "ng.go", "_skipped.go", ".hidden.go", "x,y.go", "tasks:%s.go" % other_os]
+            return [e2e_file(nm, rng.choice([M, M, ("and", M, ("tag", host[0]))]), "N%d" % i) for i, nm in enumerate(names)]
+        cstep = {"name": "compile", "what": "compile", "cflags": ["", ""]}
+        hist3 = [{"name": "list", "what": "list"}, {"name": "run", "what": "run"}, {"name": "run-again-hashfast", "what": "run", "env": HF0}]
+        jobs.append({"kind": "names", "top": D(named() + [e2e_file("lib+x.go", None, "Leaked")]), "sub": None, "env": envs[1], "plat": host, "flags": ("", ""),
+                     "history": hist3 + [cstep], "gocmd": True, "goplan": ""})
+        jobs.append({"kind": "names", "top": D([e2e_file("lib+x.go", None, "Leaked")]), "sub": D(named() + [e2e_file("pl@in.go", None, "Plain")]), "env": envs[2], "plat": host,
+                     "flags": ("", ""), "history": hist3 + [cstep], "gocmd": False, "goplan": ""})
+        both = lambda: (D([e2e_file("magefile.go", M, "Build"), e2e_file("lib.go", None, "Leaked")]), D([e2e_file("targets.go", M, "Sub"), e2e_file("plain.go", None, "Plain")]))
+        attr_jobs = [(both(), {"proj_mode": 0o777}), (both(), {"proj_mode": 0o1777}), (both(), {"proj_mode": 0o775, "sub_mode": 0o777}),
+                     ((D([e2e_file("magefile.go", M, "Build"), e2e_file("lib.go", None, "Leaked")]), None), {"proj_mode": 0o777}),
+                     ((D([e2e_file("lib.go", None, "Leaked")]), both()[1]), {"sub_mode": 0o777, "proj_mode": 0o755}),
+                     ((D([e2e_file("lib.go", None, "Leaked")]), both()[1]), {"sub_mode": 0o1777, "proj_mode": 0o777}),
+                     (both(), {"proj_mode": 0o700, "sub_mode": 0o700}), (both(), {"parent_mode": 0o777, "proj_mode": 0o755}),
+                     (both(), {"parent_mode": 0o1777, "proj_mode": 0o2775}), (both(), {"chown": 65534}), ((both()[0], None), {"chown": 65534, "proj_mode": 0o777})]
+        for n, ((top, sub), attrs) in enumerate(attr_jobs):
+            if "chown" in attrs and os.geteuid() != 0:
+                continue
+            jobs.append({"kind": "attrs", "top": top, "sub": sub, "attrs": attrs, "env": envs[n % len(envs)], "plat": host, "flags": ("", ""),
+                         "history": hist3 + ([cstep] if n % 3 == 0 else []), "gocmd": n % 2 == 0, "goplan": ""})
         for n, lj in enumerate(link_jobs):
             jobs.append(dict(lj, kind="links", env=envs[n % len(envs)], plat=host, flags=("", ""), gocmd=(n % 2 == 0), goplan=""))
 
@@ -809,6 +838,17 @@ exec go "$@"
             os.symlink(dst, os.path.join(proj, rel))
         if links.get("project_link"):           # the project reached through a link with another name
             os.symlink(proj, os.path.join(os.path.dirname(proj), links["project_link"]))
+        attrs = j.get("attrs") or {}
+        if attrs.get("chown") is not None and os.geteuid() == 0:      # the project belongs to another user
+            for root_, ds_, fs_ in os.walk(proj):
+                for n_ in [root_] + [os.path.join(root_, x) for x in fs_]:
+                    os.lchown(n_, attrs["chown"], attrs["chown"])
+        if attrs.get("sub_mode") is not None and os.path.isdir(os.path.join(proj, "magefiles")):
+            os.chmod(os.path.join(proj, "magefiles"), attrs["sub_mode"])
+        if attrs.get("proj_mode") is not None:
+            os.chmod(proj, attrs["proj_mode"])
+        if attrs.get("parent_mode") is not None:
+            os.chmod(os.path.dirname(proj), attrs["parent_mode"])
         cache = os.path.join(os.path.dirname(proj), "cache")
         os.makedirs(cache, exist_ok=True)
         res = {"proj": proj, "steps": []}
@@ -967,7 +1007,7 @@ exec go "$@"
     for j, res in zip(jobs, results):
         ctx.add("e2e_" + j["kind"])
         bad, items = judge(j, res)
-        case = {"e2e": {k: j[k] for k in ("kind", "top", "sub", "env", "plat", "flags", "history", "mutations", "links", "via", "top_named", "gocmd", "goplan", "extras") if k in j}, "observed": res["steps"], "project": res["proj"],
+        case = {"e2e": {k: j[k] for k in ("kind", "top", "sub", "env", "plat", "flags", "history", "mutations", "links", "via", "top_named", "gocmd", "goplan", "extras", "attrs") if k in j}, "observed": res["steps"], "project": res["proj"],
                 "repo": REPO}
         if bad:
             # a deterministic defect shows again in a fresh copy of the project (new directory, new cache); a one-off does not
@@ -1216,6 +1256,7 @@ def run(ctx):
         d = c["dir"]
         for f in d["files"]:
             f["expr"] = tup(f["expr"])
+        d.setdefault("mode", None)
         dirs = [d]
         reqs = [dict(c["request"], di=0)]
         variants = [(c["env_name"], c["env"])]
@@ -1274,9 +1315,9 @@ def run(ctx):
             dist["error" if a["err"] else ("nonempty" if a["files"] else "empty")] += 1
             if not a["err"] and a["files"] and a["dirs"] != [w["dir"]]:
                 ctx.violation({"kind": "oracle", "clause": "returned paths are not inside the directory asked for: %s vs %s" % (a["dirs"], w["dir"])},
-                              case={"dir": {k: d[k] for k in ("id", "files", "mixed")}, "request": {k: q[k] for k in ("goos", "goarch", "isdir")}, "env_name": vname, "env": envv})
+                              case={"dir": {k: d[k] for k in ("id", "files", "mixed", "mode")}, "request": {k: q[k] for k in ("goos", "goarch", "isdir")}, "env_name": vname, "env": envv})
             what = oracle(d, q, host, envv, dflt, supported, nrelease, a["files"], a["err"])
-            case = {"dir": {k: d[k] for k in ("id", "files", "mixed")}, "request": {k: q[k] for k in ("goos", "goarch", "isdir")}, "env_name": vname, "env": envv,
+            case = {"dir": {k: d[k] for k in ("id", "files", "mixed", "mode")}, "request": {k: q[k] for k in ("goos", "goarch", "isdir")}, "env_name": vname, "env": envv,
                     "implementation": {"files": a["files"], "err": a["err"]}, "build_default": {k: dflt[k] for k in ("goos", "goarch", "cgo")}}
             report(what, case, d, envv)
             runs_by_dir.setdefault(q["di"], []).append(run_coq(pi, q, a))
@@ -1332,7 +1373,7 @@ def run(ctx):
             third += 1
             if r[0] != r[1]:
                 ctx.violation({"kind": "oracle-vs-go-list", "clause": "the oracle and `go list -tags mage` disagree: %s vs %s" % (sorted(r[1]), sorted(r[0]))},
-                              case={"dir": {k: d[k] for k in ("id", "files", "mixed")}, "request": {k: q[k] for k in ("goos", "goarch", "isdir")}, "env_name": "unset", "env": {}},
+                              case={"dir": {k: d[k] for k in ("id", "files", "mixed", "mode")}, "request": {k: q[k] for k in ("goos", "goarch", "isdir")}, "env_name": "unset", "env": {}},
                               found_input=False)
     rcase = (ctx.replay or {}).get("case") or {}
     if not ctx.replay or rcase.get("seq"):
